@@ -37,6 +37,24 @@ class Atom:
                 return (CMP_METHODS[last], t[2][0], t[2][1])
         return None
 
+    def conjuncts(self):
+        """[(op, a, b)] that all hold when the (stripped) term is true: the comparison itself, or for `(lo..hi).contains(&x)`
+        the pair x >= lo, x < hi (x <= hi for an inclusive range). A false term means: not all of them."""
+        t = self.term
+        while t[0] in ("cast", "q"):
+            t = t[1]
+        if t[0] == "call" and t[1].endswith("::contains") and len(t[2]) == 2:
+            rg = t[2][0]
+            while rg[0] in ("cast", "q"):
+                rg = rg[1]
+            if rg[0] == "agg" and rg[1].endswith("ops::Range"):
+                f = dict(rg[3])
+                return [("Ge", t[2][1], f["start"]), ("Lt", t[2][1], f["end"])]
+            if rg[0] == "call" and rg[1].split("::<")[0].endswith("RangeInclusive") and rg[1].endswith("::new") and len(rg[2]) == 2:
+                return [("Ge", t[2][1], rg[2][0]), ("Le", t[2][1], rg[2][1])]
+        c = self.cond()
+        return [c] if c else []
+
     def fail_cond(self):
         """The comparison under which this atom leads to failure, or None."""
         c = self.cond()
